@@ -1,6 +1,8 @@
 """C13 — RepeatBand arithmetic: boundary-dense r (quick), wide sweeps (thorough)"""
 from .common import ident
 
+from . import auto
+
 PROP = 'C13'
 PREDICATE = 'C13'
 LEAN_TARGETS = ['LLTD.Props.C13']
@@ -74,6 +76,9 @@ def cases(rng, tier, X):
             if rng.random() < 0.5:
                 ops.append('band heard 1')
         out.append(('tick%d' % k, ops))
+    # universal automata schedule (all public calls, missing objects, near-colliding keys, bridged frames, every deadline): this check's predicate on it
+    for k in range(60 if tier == 'quick' else 6000):
+        out.append(('au%d' % k, auto.schedule(rng)))
     return out
 
 
